@@ -228,7 +228,8 @@ def decide(pid, tier, seed):
             "trusted_base": TRUSTED_COMMON + PROP_TRUST.get(pid, []),
             "explanation": PROP_EXPLAIN.get(pid, ""),
             "back_end": "Verus 0.2026.09.13 / Z3 (single generated file, all functions, unbounded)",
-            "functions_under_contract": sorted(fnames),
+            "functions_under_contract": sorted(f["name"] for f in funcs if f["mode"] == "exec"),
+            "ghost_lemmas_serving_the_property": sorted(f["name"] for f in funcs if f["mode"] == "proof"),
             "obligation_count_rule": "per function of the generated file: ensures/invariant/decreases clauses + ghost assertions + panic sites "
                                      "(assert!/debug_assert*/unreachable!/expect/unwrap) + index sites; a function counts as discharged only if "
                                      "Verus reports no failed obligation in it",
@@ -265,7 +266,7 @@ def decide(pid, tier, seed):
             print("failed obligation: %s" % x["obligation"])
             print("VIOLATION property=%s replay=%s no-failing-input-found" % (pid, pth))
         return 1
-    print("%s: %d obligations in %d functions discharged by Verus (%.1fs solver, %s)" % (
+    print("%s: %d obligations in %d functions and lemmas discharged by Verus (%.1fs solver, %s)" % (
         pid, total, len(funcs), solver_s, "cached" if r.get("cached") else "%.1fs wall" % r["wall_s"]))
     return 0
 
